@@ -56,16 +56,17 @@ Proof.
 Qed.
 
 Lemma stored_string C T s :
-  (exists l, T = TString l) \/ (exists l, T = TUnicode l) \/ (exists vals, T = TEnum vals /\ existsb (str_eqb s) vals = true) ->
+  (exists l, T = TString l) \/ (exists l, T = TUnicode l) \/ (exists vals, T = TEnum vals /\ existsb (str_eqb s) vals = true)
+  \/ T = TForeignKeyStr ->
   text_ok s = true -> stored_ok C T (PStr s).
 Proof.
   intros HT Hok. ok4 (PStr s) (PStr s) (SText s) (PStr s).
-  assert (Ha : col_affinity T = ATEXT) by (destruct HT as [(l & ->)|[(l & ->)|(vals & -> & _)]]; now rewrite affinity_char).
+  assert (Ha : col_affinity T = ATEXT) by (destruct HT as [(l & ->)|[(l & ->)|[(vals & -> & _)| ->]]]; now rewrite affinity_char).
   assert (Hu : fk_unwrap T (PStr s) = PStr s) by (destruct T; reflexivity).
   assert (Hf : from_python C T (PStr s) = Ok (PStr s)).
-  { destruct HT as [(l & ->)|[(l & ->)|(vals & -> & Hm)]]; cbn; [reflexivity|reflexivity|now rewrite Hm]. }
+  { destruct HT as [(l & ->)|[(l & ->)|[(vals & -> & Hm)| ->]]]; cbn; [reflexivity|reflexivity|now rewrite Hm|reflexivity]. }
   assert (Ht : to_python C T (PStr s) = Ok (PStr s)).
-  { destruct HT as [(l & ->)|[(l & ->)|(vals & -> & Hm)]]; cbn; [reflexivity|reflexivity|now rewrite Hm]. }
+  { destruct HT as [(l & ->)|[(l & ->)|[(vals & -> & Hm)| ->]]]; cbn; [reflexivity|reflexivity|now rewrite Hm|reflexivity]. }
   rewrite Hu. repeat split; try assumption; try (now apply store_text); unfold expected; rewrite ?Hu; try (now left); reflexivity.
 Qed.
 
@@ -94,6 +95,13 @@ Proof.
   unfold good, expected. rewrite Hu.
   repeat split; try (now left); try reflexivity.
   apply store_int_col; [left; reflexivity|reflexivity|assumption].
+Qed.
+
+Lemma stored_fks_inst C s : text_ok s = true -> stored_ok C TForeignKeyStr (PObjS s).
+Proof.
+  intros Hok. ok4 (PStr s) (PStr s) (SText s) (PStr s). unfold good, expected. cbn [fk_unwrap].
+  repeat split; try (now left); try reflexivity.
+  apply store_text; [reflexivity|assumption].
 Qed.
 
 Lemma stored_datetime C T y m d h mi s us :
